@@ -14,6 +14,8 @@ use sync42::wait_list::WaitList;
 
 mod memtable;
 #[cfg(blue_verif)]
+mod verif_events;
+#[cfg(blue_verif)]
 mod verif_hooks;
 #[cfg(blue_verif)]
 pub use verif_hooks::VerifState;
@@ -233,12 +235,16 @@ impl KeyValueStore {
                 ))?;
                 state.mem_seq_no = state.seq_no;
                 state.seq_no += 1;
+                #[cfg(blue_verif)]
+                verif_events::event("f_rollover", state.mem_seq_no, state.seq_no, imm_trigger);
                 let mut wait_guard = self.wait_list.link(());
                 while !wait_guard.is_head() {
                     state = wait_guard.naked_wait(state);
                 }
                 drop(wait_guard);
                 self.wait_list.notify_head();
+                #[cfg(blue_verif)]
+                verif_events::event("f_head", imm_trigger, 0, 0);
                 (imm, imm_log, imm_path, imm_trigger)
             };
             self.poison::<(), SError>(Ok(()))?;
@@ -274,6 +280,8 @@ impl KeyValueStore {
                 return Err(err);
             }
             self.tree._ingest(&sst_path, Some(imm_trigger))?;
+            #[cfg(blue_verif)]
+            verif_events::point("f_ingested", imm_trigger, 0, 0);
             remove_file(sst_path)?;
             if let Some(file_name) = imm_path.file_name() {
                 rename(&imm_path, TRASH_ROOT(&self.root).join(file_name))?;
@@ -281,6 +289,8 @@ impl KeyValueStore {
             let mut state = self.state.lock().unwrap();
             state.imm = None;
             state.imm_trigger = imm_trigger;
+            #[cfg(blue_verif)]
+            verif_events::event("f_clear", imm_trigger, 0, 0);
             self.cnd_memtable_rolled_over.notify_all();
         }
     }
@@ -298,6 +308,8 @@ impl KeyValueStore {
         mut lock_guard: MutexGuard<'b, KeyValueStoreState>,
     ) -> MutexGuard<'b, KeyValueStoreState> {
         lock_guard.imm_trigger = std::cmp::max(lock_guard.imm_trigger, lock_guard.mem_seq_no);
+        #[cfg(blue_verif)]
+        verif_events::event("trigger", lock_guard.imm_trigger, lock_guard.mem_seq_no, 0);
         self.cnd_needs_memtable_flush.notify_one();
         lock_guard
     }
@@ -353,6 +365,8 @@ impl KeyValueStore {
             let wait_guard = self.wait_list.link(());
             let seq_no = state.seq_no + 1;
             state.seq_no = seq_no;
+            #[cfg(blue_verif)]
+            verif_events::event("w_assign", seq_no, state.mem_seq_no, batch.entries.len() as u64);
             for entry in batch.entries.iter_mut() {
                 entry.timestamp = seq_no;
             }
@@ -365,19 +379,27 @@ impl KeyValueStore {
                 Arc::clone(&state.mem_log),
             )
         };
+        #[cfg(blue_verif)]
+        verif_events::point("w_unlocked", 0, 0, 0);
         let mut log_batch = sst::log::WriteBatch::default();
         for entry in batch.entries.iter() {
             log_batch.insert(KeyValueRef::from(entry))?;
         }
         self.poison(log.append(log_batch))?;
+        #[cfg(blue_verif)]
+        verif_events::point("w_logged", 0, 0, 0);
         self.poison(memtable.write(&mut batch))?;
         drop(memtable);
         drop(log);
+        #[cfg(blue_verif)]
+        verif_events::point("w_dropped", 0, 0, 0);
         let mut state = self.state.lock().unwrap();
         while !wait_guard.is_head() {
             state = wait_guard.naked_wait(state);
         }
         drop(wait_guard);
+        #[cfg(blue_verif)]
+        verif_events::event("w_done", 0, 0, 0);
         self.wait_list.notify_head();
         Ok(())
     }
@@ -388,20 +410,30 @@ impl KeyValueStore {
             let mem = Arc::clone(&state.mem);
             let imm = state.imm.clone();
             let version = self.tree.take_snapshot();
+            #[cfg(blue_verif)]
+            verif_events::event("snap", state.mem_seq_no, state.imm.is_some() as u64, 0);
             (mem, imm, version, state.seq_no)
         };
+        #[cfg(blue_verif)]
+        verif_events::point("snap_ts", timestamp, 0, 0);
         *is_tombstone = false;
         let ret = mem.load(key, timestamp, is_tombstone)?;
+        #[cfg(blue_verif)]
+        verif_events::point("r_mem", (ret.is_some() || *is_tombstone) as u64, 0, 0);
         if ret.is_some() || *is_tombstone {
             return Ok(ret);
         }
         if let Some(imm) = imm {
             let ret = imm.load(key, timestamp, is_tombstone)?;
+            #[cfg(blue_verif)]
+            verif_events::point("r_imm", (ret.is_some() || *is_tombstone) as u64, 0, 0);
             if ret.is_some() || *is_tombstone {
                 return Ok(ret);
             }
         }
         let ret = version.load(key, timestamp, is_tombstone)?;
+        #[cfg(blue_verif)]
+        verif_events::point("r_tree", (ret.is_some() || *is_tombstone) as u64, 0, 0);
         Ok(ret)
     }
 
@@ -415,8 +447,12 @@ impl KeyValueStore {
             let mem = Arc::clone(&state.mem);
             let imm = state.imm.clone();
             let version = self.tree.take_snapshot();
+            #[cfg(blue_verif)]
+            verif_events::event("snap", state.mem_seq_no, state.imm.is_some() as u64, 0);
             (mem, imm, version, state.seq_no)
         };
+        #[cfg(blue_verif)]
+        verif_events::point("snap_ts", timestamp, 0, 0);
         let mut cursors: Vec<Box<dyn Cursor>> = Vec::with_capacity(3);
         let mut mem_scan = mem.range_scan(start_bound, end_bound, timestamp)?;
         mem_scan.seek_to_first()?;
